@@ -1,5 +1,6 @@
 import Driver.Lat
 import Pcore.Model.DescribeSig
+import Pcore.Model.DescribeCallable
 /-!
   Driver op of C19 for the STRUCTURE of the mismatch description (syntax in harness/c19/descs.go):
 
@@ -153,7 +154,79 @@ def sigd (sigs args : Sexp) : String :=
      | _, _ => "bad-op")
   | _ => "bad-op"
 
+/-! ### `descc C X` — px.VerifDescribe("x", C, X) for an expected Callable C (model: Pcore/Model/DescribeCallable.lean)
+    C ::= (callable P R B)    P ::= n | (tup (T*) none) | (tup (T*) (LO HI))    R ::= n | T    B ::= n | (r P R) | (o P R)
+    X ::= C | T
+    → empty | fault | ITEM …   with the full payloads: a Callable as `(callable P R B)`, a block type as `(callable P R n)` or
+      `(opt (callable P R n))` -/
+def paramsOf : Sexp → Option (Option (List Ty × Option Rng))
+  | .atom "n" => some none
+  | e => match Lat.ty? e with
+         | some (.tuple ts g) => some (some (ts, g))
+         | _ => none
+
+def retOf : Sexp → Option (Option Ty)
+  | .atom "n" => some none
+  | e => (Lat.ty? e).map some
+
+def blkOf : Sexp → Option (Option Blk)
+  | .atom "n" => some none
+  | .list [.atom b, p, r] => do
+      let o ← (match b with | "r" => some false | "o" => some true | _ => none)
+      let p ← paramsOf p
+      let r ← retOf r
+      pure (some (o, ⟨p, r⟩))
+  | _ => none
+
+def ctOf : Sexp → Option CT
+  | .list [.atom "callable", p, r, b] => do
+      let p ← paramsOf p
+      let r ← retOf r
+      let b ← blkOf b
+      pure ⟨p, r, b⟩
+  | _ => none
+
+def paramsStr : Option (List Ty × Option Rng) → String
+  | none => "n"
+  | some p => Lat.tyStr (paramTuple p)
+def retStr : Option Ty → String
+  | none => "n"
+  | some t => Lat.tyStr t
+def ct0Str (c : CT0) : String := s!"(callable {paramsStr c.params} {retStr c.ret} n)"
+def blkStr (b : Blk) : String := if b.1 then s!"(opt {ct0Str b.2})" else ct0Str b.2
+def ctStr (c : CT) : String :=
+  s!"(callable {paramsStr c.params} {retStr c.ret} " ++
+    (match c.block with | none => "n" | some b => (if b.1 then "(o " else "(r ") ++ paramsStr b.2.params ++ " " ++ retStr b.2.ret ++ ")") ++ ")"
+def cactStr : CAct → String
+  | .callable c => ctStr c
+  | .ty t => Lat.tyStr t
+
+def cmStr : CM → String
+  | .param m => itemFull m
+  | .missingRequiredBlock p => s!"(mrb {pathStr p})"
+  | .blockTm p e a => s!"(tm {pathStr p} {blkStr e} {blkStr a})"
+  | .returnTm p e a => s!"(tm {pathStr p} {Lat.tyStr e} {Lat.tyStr a})"
+  | .topTm p e a => s!"(tm {pathStr p} {ctStr e} {cactStr a})"
+
+def descc (e a : Sexp) : String :=
+  match ctOf e with
+  | none => "bad-op"
+  | some ce =>
+    match (match ctOf a with
+           | some ca => some (CAct.callable ca)
+           | none => (Lat.ty? a).map CAct.ty) with
+    | none => "bad-op"
+    | some act =>
+      match describeC Lat.cfg Lat.sfh ce act (subjectPath "x") with
+      | .fault _ => "fault"
+      | .ok [] => "empty"
+      | .ok ms =>
+          let ps := ms.filterMap fun m => match m with | .param x => some x | _ => none
+          if ps.length == ms.length then " ".intercalate ((sortRuns ps).map itemFull)   -- the description of the parameter tuples
+          else " ".intercalate (ms.map cmStr)
+
 def exec : List Sexp → String
+  | [.atom "descc", e, a] => descc e a
   | [.atom "sigd", sigs, args] => sigd sigs args
   | [.atom "descs", e, a] => descs e a
   | [.atom "descx", e, a, .atom _, .list _] => descs e a
